@@ -7,6 +7,7 @@
     harness table below (catches mirrored slips that (A) cannot see)
 (D) entity level: the message entity's toProtocolTreeNode -> fromProtocolTreeNode keeps payload and meta data
 """
+import os
 import struct
 
 from .. import compat  # noqa: F401
@@ -407,8 +408,48 @@ def _edit_lists_in_place(obj, seen):
     return n
 
 
+def _from_file(case, out):
+    """composing downloadable-media attributes from a file on disk: what the application states explicitly is kept, what it leaves
+    out is taken from the file (its size, its SHA-256, its MIME type) - and the result serialises and parses back unchanged"""
+    import hashlib
+    import tempfile
+    content = bytes((i * 31 + 7) & 0xFF for i in range(case["size"]))
+    d = tempfile.mkdtemp(prefix="c10_file_")
+    path = os.path.join(d, "upload" + case.get("ext", ".jpg"))
+    try:
+        with open(path, "wb") as f:
+            f.write(content)
+        given = {k: (bytes.fromhex(v) if k in ("file_sha256", "media_key") else v) for k, v in case["given"].items()}
+        out.label("from_file", "from_file:given=" + ("+".join(sorted(given)) or "nothing"))
+        try:
+            attrs = DownloadableMediaMessageAttributes.from_file(path, **given)
+        except Exception as e:
+            out.fail("compose", "from_file:raises:%s" % type(e).__name__, {"error": repr(e)[:300], "given": sorted(given)})
+            return out
+        expected = {"file_length": len(content), "file_sha256": hashlib.sha256(content).digest(), "url": None, "media_key": None}
+        expected.update(given)
+        for k, v in expected.items():
+            if k == "mimetype":
+                continue
+            got = getattr(attrs, k)
+            if got != v:
+                out.fail("compose", "from_file:%s_%s" % (k, "given_value_replaced" if k in given else "not_taken_from_the_file"),
+                         {"given": sorted(given), "got": repr(got)[:80], "expected": repr(v)[:80]})
+                return out
+        if "mimetype" in given and attrs.mimetype != given["mimetype"]:
+            out.fail("compose", "from_file:mimetype_given_value_replaced", {"got": attrs.mimetype})
+            return out
+        out.info = {"nt": 0 < len([k for k in ("file_length", "file_sha256") if k in given]) < 2}
+        return out
+    finally:
+        import shutil
+        shutil.rmtree(d, ignore_errors=True)
+
+
 def run_case(case):
     out = Outcome()
+    if case["sub"] == "from_file":
+        return _from_file(case, out)
     spec = case["spec"]
     sub = case["sub"]
     n_opt, nested, zero, kinds = spec_stats(spec)
@@ -983,14 +1024,33 @@ def _enum_each_kind():
         yield {"sub": "attrs", "spec": s, "meta": {"incoming": False}, "typed_edit": (other[0] if other else s)[kind]}
 
 
+def _from_file_strategy():
+    opt = {"file_length": st.integers(0, 2 ** 40), "file_sha256": st.binary(min_size=32, max_size=32).map(lambda b: b.hex()),
+           "mimetype": st.sampled_from(["image/jpeg", "video/mp4", "application/octet-stream"]), "url": st.just("https://mmg.whatsapp.net/d/f/x.enc"),
+           "media_key": st.binary(min_size=32, max_size=32).map(lambda b: b.hex())}
+
+    @st.composite
+    def build(draw):
+        given = {k: draw(v) for k, v in opt.items() if draw(st.booleans())}
+        return {"sub": "from_file", "size": draw(st.sampled_from([0, 1, 231, 4096, 70000])), "ext": draw(st.sampled_from([".jpg", ".mp4", ".bin"])), "given": given}
+    return build()
+
+
+def _enum_from_file():
+    for given in ({}, {"file_length": 257}, {"file_sha256": "ab" * 32}, {"file_length": 257, "file_sha256": "ab" * 32},
+                  {"mimetype": "image/png", "file_sha256": "cd" * 32}, {"url": "https://mmg.whatsapp.net/d/f/x.enc", "media_key": "11" * 32, "file_length": 9}):
+        yield {"sub": "from_file", "size": 231, "ext": ".jpg", "given": given}
+
+
 def plan(tier):
     quick = tier == "quick"
     return {
         "shards": 16,
-        "enumerations": [("each_kind_full", _enum_each_kind)],
+        "enumerations": [("each_kind_full", _enum_each_kind), ("attributes_from_a_file", _enum_from_file)],
         "strategies": [
             ("attrs", case_strategy("attrs"), 200 if quick else 8000),
             ("peer", case_strategy("peer"), 120 if quick else 8000),
+            ("from_file", _from_file_strategy(), 20 if quick else 600),
         ],
         "shrink": "hypothesis",
         "budget_s": 150 if quick else 1500,
